@@ -18,6 +18,11 @@ pub fn class_of(v: &Violation) -> String {
 
 fn still_fails(script: &Script, class: &str) -> Option<Violation> {
     let r = execute(script);
+    for v in r.nonfatal.into_iter() {
+        if class_of(&v) == class {
+            return Some(v);
+        }
+    }
     match r.end {
         RunEnd::Violation(v) if class_of(&v) == class => Some(v),
         _ => None,
